@@ -9,7 +9,7 @@ from chameleon.tales import DEFAULT_MARKER
 CFG = {}
 STATE = {}
 N = [1, 1, 1, 1, 1, 1]
-VALS = [None, DEFAULT_MARKER, '', 0, False, True, 'a<"b']
+VALS = [None, DEFAULT_MARKER, '', 0, False, True, 'a<" b&']
 HTML_BOOLS = ("compact", "nowrap", "ismap", "declare", "noshade", "checked", "disabled", "readonly",
               "multiple", "selected", "noresize", "defer")
 
@@ -63,7 +63,7 @@ def _mutate(name):
 def template_text():
     s = '<a'
     for n, v, q in CFG['static']:
-        s += ' %s=%s%s%s' % (n, q, v, q)
+        s += ' %s=%s%s%s' % (n, q, v, q) if v is not None else ' ' + n      # valueless: name only
     ents = []
     for n, var in CFG['entries']:
         ents.append('%s %s' % (n, var) if n else var)
@@ -141,11 +141,21 @@ def read_start_tag(out):
         while j < n and out[j] not in '= >':
             j += 1
         name = out[i:j]
+        if j < n and out[j] in ' >':
+            res.append((name, None, None))       # valueless attribute
+            i = j
+            continue
         if j >= n or out[j] != '=' or j + 1 >= n:
             return None
         q = out[j + 1]
         if q not in '"\'':
-            return None
+            # unquoted value: up to the next blank or '>'
+            k = j + 1
+            while k < n and out[k] not in ' >':
+                k += 1
+            res.append((name, '', out[j + 1:k]))
+            i = k
+            continue
         k = out.find(q, j + 2)
         if k < 0:
             return None
@@ -220,6 +230,14 @@ def known_excluded(b):
                     for other in names:
                         if other != k and other.lower() == k.lower():
                             return True
+    if 'valueless_static_computed' in ex:
+        # a static attribute written without a value that a named entry overwrites with a computed value
+        for n, v, q in CFG['static']:
+            if v is None:
+                for en, var in CFG['entries']:
+                    if en is not None and en.lower() == n.lower() and b[var] is not None \
+                            and b[var] is not DEFAULT_MARKER and (n not in bool_set() or b[var]):
+                        return True
     if 'dict_before_named_static' in ex:
         # an attribute dictionary that precedes (in the statement) a named entry for a *static* attribute
         # and also provides that name
@@ -254,7 +272,7 @@ def check(b):
             if raw != text:                   # exactly as written
                 return False
         else:
-            if '<' in raw or q in raw:
+            if '<' in raw or (q and q in raw) or (not q and ('"' in raw or "'" in raw or '=' in raw)):
                 return False
             if unescape(raw) != text:
                 return False
